@@ -57,6 +57,10 @@ pub fn write_app(net: &Value, opts: &Value, tag: &str) -> AppFiles {
         toml.push_str(t);
         toml.push('\n');
     }
+    if let Some(t) = opts["state_toml"].as_str() {
+        toml.push_str(t);
+        toml.push('\n');
+    }
     toml.push_str(&format!("[graph]\nedge_list_input_file = \"{}\"\nvertex_list_input_file = \"{}\"\nverbose = false\n", p("edges.csv"), p("vertices.csv")));
     toml.push_str(&opts["algorithm_toml"].as_str().unwrap_or("[algorithm]\ntype = \"a*\"\n").to_string());
     match opts["traversal_toml"].as_str() {
